@@ -1426,3 +1426,58 @@ Proof.
     apply purge_txn_some in Ht as [(_ & Ha & _)|(_ & _ & -> & Hn)]; [|assumption].
     rewrite Ha, remove_addr_elem. tauto.
 Qed.
+
+(* ------------------------------------------------------------------------------------------ *)
+(* the log is complete and truthful; failures are decided before any send *)
+
+(* "the last log entry announces the send from -> to : v, p and records the sender's actual state" *)
+Definition announced (e : Z) (W : world) (from to : N) (v : Z) (p : payload) : Prop :=
+  exists ev, last (log W) = Some ev /\ ev_w ev = from /\ t_to (ev_txn ev) = to /\
+    t_value (ev_txn ev) = v /\ t_payload (ev_txn ev) = p /\ ev_epoch ev = e /\
+    wallets W !! from = Some (ev_st ev) /\ ev_bal ev = balance W from.
+
+(* the VM consults the nested sender ONLY for sends that were just logged: two nested senders that
+   agree on announced sends are indistinguishable *)
+Theorem every_send_is_logged sd1 sd2 e :
+  (forall W from to v p, announced e W from to v p -> sd1 W from to v p = sd2 W from to v p) ->
+  forall W from to v p, vm_send sd1 e W from to v p = vm_send sd2 e W from to v p.
+Proof.
+  intros H W from to v p. unfold vm_send.
+  destruct (negb (v =? 0) && (v <? 0)); [reflexivity|].
+  destruct (negb (v =? 0) && (balance W from <? v)); [reflexivity|].
+  destruct (negb (exists_b W to)); [reflexivity|].
+  destruct p as [|c|o]; [reflexivity|reflexivity|].
+  destruct (wallets (transfer W from to v) !! to) as [cur|]; [|reflexivity].
+  destruct (wallet_method _ _ _ _ _ _ _) as [c|st' r|st' id t k]; [reflexivity|reflexivity|].
+  rewrite H; [reflexivity|].
+  eexists. split; [cbn; apply last_snoc|]. cbn.
+  repeat split. apply lookup_insert.
+Qed.
+
+(* an error is decided without consulting the nested sender, i.e. before any send is made *)
+Theorem failure_decided_before_send sd1 sd2 e W from to v p W' c r :
+  vm_send sd1 e W from to v p = (W', (c, r)) -> c <> 0 ->
+  vm_send sd2 e W from to v p = (W', (c, r)).
+Proof.
+  unfold vm_send, OK. intros H Hc. revert H.
+  destruct (negb (v =? 0) && (v <? 0)); [auto|].
+  destruct (negb (v =? 0) && (balance W from <? v)); [auto|].
+  destruct (negb (exists_b W to)); [auto|].
+  destruct p as [|c0|o]; [auto|auto|].
+  destruct (wallets (transfer W from to v) !! to) as [cur|]; [|auto].
+  destruct (wallet_method _ _ _ _ _ _ _) as [c0|st' r0|st' id t k]; [auto|auto|].
+  destruct (sd1 _ _ _ _ _) as [W4 [code r1]]. intros H. inversion H. lia.
+Qed.
+
+(* Propose / Approve report success whatever the inner send answered *)
+Theorem inner_failure_is_tolerated sd e W from to v o cur st' id t k :
+  negb (v =? 0) && (v <? 0) = false -> negb (v =? 0) && (balance W from <? v) = false ->
+  exists_b W to = true ->
+  wallets (transfer W from to v) !! to = Some cur ->
+  wallet_method cur (balance (transfer W from to v) to) e from to (exists_b (transfer W from to v)) o
+    = Send st' id t k ->
+  exists W' code r, vm_send sd e W from to v (PCall o) = (W', (OK, mk_ret k true (checked_code code) r)).
+Proof.
+  intros H1 H2 H3 H4 H5. unfold vm_send. rewrite H1, H2, H3. cbn [negb]. rewrite H4, H5.
+  destruct (sd _ _ _ _ _) as [W4 [code r]]. eauto.
+Qed.
